@@ -382,7 +382,24 @@ func (g *yg) spell(depth int, label string) (string, func() *yaml.Node) {
 		}
 	case 10: // Box<T> == !generic {name: Box, args: [T]} == !generic {name: Box, args: T}
 		s, l := g.spell(depth-1, label+".g")
+		if depth == 1 {
+			// a type argument that is itself written in expanded syntax (a tagged mapping / a sequence), also at the smallest depth
+			switch verifChoose(label+"argshape", 4) {
+			case 1:
+				p := s
+				s, l = "("+p+")*", func() *yaml.Node { return g.mp("!vector", g.str("items"), g.str(p)) }
+			case 2:
+				p := s
+				s, l = "string->("+p+")", func() *yaml.Node { return g.mp("!map", g.str("keys"), g.str("string"), g.str("values"), g.str(p)) }
+			case 3:
+				p := s
+				s, l = "("+p+")?", func() *yaml.Node { return g.sq("!!seq", g.sc("!!null", "null"), g.str(p)) }
+			}
+		}
 		form := verifChoose(label+"argform", 2)
+		if probe := l(); probe.Kind == yaml.SequenceNode {
+			form = 0 // `args: [null, T]` is a list of two arguments, not one optional argument: a sequence-shaped argument needs the list form
+		}
 		return "Box<" + s + ">", func() *yaml.Node {
 			if form == 0 {
 				return g.mp("!generic", g.str("name"), g.str("Box"), g.str("args"), g.sq("!!seq", l()))
